@@ -85,12 +85,15 @@ class UpgradedAnnotation(metaclass=abc.ABCMeta):
             return True
         if isinstance(other, UpgradedAnnotation):
             try:
-                return bool(self.source_value() == other.source_value())
+                if _same_value(self.source_value(), other.source_value()):
+                    return True
             except Exception:
-                # a postponed annotation that cannot be evaluated (eg. a
-                # name only imported for type checking): same text in the
-                # same globals is all that can be said
-                return self._unevaluated() == other._unevaluated()
+                pass
+            # a postponed annotation that cannot be evaluated (eg. a name
+            # only imported for type checking) or whose evaluation makes a
+            # new object every time: same text in the same globals is all
+            # that can be said
+            return self._unevaluated() == other._unevaluated()
         return False
 
     def _unevaluated(self):
@@ -233,7 +236,11 @@ class UpgradedSignature(_util.funcsigs.Signature):
     def __eq__(self, other):
         if self is other:
             return True
-        plain_eq = super().__eq__(other)
+        try:
+            plain_eq = super().__eq__(other)
+        except Exception:
+            # values that refuse to be compared
+            return False
         if plain_eq is not True:
             return plain_eq
         if isinstance(other, UpgradedSignature):
@@ -319,9 +326,19 @@ class UpgradedParameter(_util.funcsigs.Parameter):
     def __eq__(self, other):
         if self is other:
             return True
-        plain_eq = super().__eq__(other)
-        if plain_eq is not True:
-            return plain_eq
+        if not isinstance(other, _util.funcsigs.Parameter):
+            return NotImplemented
+        # as tuples: identical values are the same without being compared,
+        # and the answer is a bool whatever the values' own == says
+        try:
+            plain_eq = (
+                (self.name, self.kind, self.default, self.annotation)
+                == (other.name, other.kind, other.default, other.annotation))
+        except Exception:
+            # values that refuse to be compared
+            return False
+        if not plain_eq:
+            return False
         if isinstance(other, UpgradedParameter):
             return self.upgraded_annotation == other.upgraded_annotation
         return True
